@@ -383,11 +383,35 @@ impl C12 {
                 let angle = if off.0 == 0 { deg as f64 } else { deg as f64 - 360.0 };
                 let res = guard(|| {
                     let t = Transform::from_instance(&loc, r, Some(angle));
-                    pts.iter().map(|p| ip(&rp(*p).transform(&t))).collect::<Vec<P>>()
+                    // and the same placement composed from the elementary operations it names
+                    let refl = if r { Transform::reflect_vert() } else { Transform::identity() };
+                    let t2 = Transform::cascade(&Transform::translate(off.0 as f64, off.1 as f64), &Transform::cascade(&Transform::rotate(angle), &refl));
+                    (pts.iter().map(|p| ip(&rp(*p).transform(&t))).collect::<Vec<P>>(), pts.iter().map(|p| ip(&rp(*p).transform(&t2))).collect::<Vec<P>>())
                 });
                 match res {
                     Err(p) => cx.fail(&key, "degrees-panic", None, || p.short(), || Value::Null),
-                    Ok(img) => {
+                    Ok((img, img2)) => {
+                        // the composition of translate, rotate and reflect_vert: within half a unit of the reference too
+                        let mut bad2 = None;
+                        for (k, p) in pts.iter().enumerate() {
+                            let (x, y0) = (p.0 as f64, p.1 as f64);
+                            let y = if r { -y0 } else { y0 };
+                            let wx = c * x - s * y + off.0 as f64;
+                            let wy = s * x + c * y + off.1 as f64;
+                            if (img2[k].0 as f64 - wx).abs() > 0.5 + 1e-5 || (img2[k].1 as f64 - wy).abs() > 0.5 + 1e-5 {
+                                bad2 = Some((*p, img2[k], (wx, wy)));
+                                break;
+                            }
+                        }
+                        if let Some((p, got, want)) = bad2 {
+                            cx.fail(
+                                &key,
+                                "degrees-elementary-composition",
+                                None,
+                                || format!("cascade(translate{off:?}, cascade(rotate({angle}), {})) maps {p:?} to {got:?}; reference ({:.4},{:.4}) tolerance 0.5", if r { "reflect_vert" } else { "identity" }, want.0, want.1),
+                                || json!({"reflect": r, "angle": angle, "loc": off, "point": p, "got": got, "want": [want.0, want.1]}),
+                            );
+                        }
                         cx.stats.evaluations += pts.len() as u64;
                         let mut bad = None;
                         for (k, p) in pts.iter().enumerate() {
@@ -764,7 +788,7 @@ impl Driver for C12 {
         let d = tier.pick(3, 6);
         Describe {
             rule: format!(
-                "single placements: reflect in {{f,t}} x angle in {{None,0,90,180,270,-90,-180,-270,-360,360,450,-630,-0}} x offsets {{0,1,-7,1000,-2^31,2^31-1}}^2 x every point of the 9x9 grid (-4..4)^2 plus the four i32 corners, judged three ways (from_instance == cascade(translate, cascade(rotate, reflect_vert)) == exact integer map); chains: every word of depth 1..={d} over the 8 orientations x 3 offsets per level, as cascaded Transforms on 6 probe points and through the real Layout::flatten on a nested layout holding a rectangle, an asymmetric L polygon and a path (shape-by-shape exact images; polygon orientation flips iff odd number of reflections); general angles: every integer degree 0..359 x reflect x 2 offsets x the grid and three large points, within 0.5+1e-5 of a double-precision reference with exact octant reduction; nested general angles: parent at every integer degree x reflect over a child in each of the 8 right-angle orientations and one general angle x 3 non-zero child offsets, as cascaded Transforms and through Layout::flatten, every point within half a unit of the exact real composition (rounded once); sibling instances: (no parent / a parent in each of the 8 orientations) over a cell holding three instances of one leaf - two in every pair of the 8 orientations x 2 offsets and a plain one, listed last / first / in the middle, the three named differently / all with an empty name / all with the same name - and an own rectangle, every flattened shape compared with the exact image under the placements on its own path only (multiset); angles next to a right angle: 90q + d for d in +-{{0.001, 0.004, 0.01, 0.05, 0.1, 0.25, 0.5, 0.75, 0.81, 1.5}} degrees and the fractional general angles 90q +- 22.5, +- 33.3, 44.999, 45.001, 67.5, -67.25 x reflect on points with coordinates up to 1e6, as from_instance, as a cascade over a plain child at (100000, 0) and through Layout::flatten, within half a unit. A state is one placement / chain word; non-trivial = not the identity orientation."
+                "single placements: reflect in {{f,t}} x angle in {{None,0,90,180,270,-90,-180,-270,-360,360,450,-630,-0}} x offsets {{0,1,-7,1000,-2^31,2^31-1}}^2 x every point of the 9x9 grid (-4..4)^2 plus the four i32 corners, judged three ways (from_instance == cascade(translate, cascade(rotate, reflect_vert)) == exact integer map); chains: every word of depth 1..={d} over the 8 orientations x 3 offsets per level, as cascaded Transforms on 6 probe points and through the real Layout::flatten on a nested layout holding a rectangle, an asymmetric L polygon and a path (shape-by-shape exact images; polygon orientation flips iff odd number of reflections); general angles: every integer degree 0..359 x reflect x 2 offsets x the grid and three large points, as from_instance and as the composition of translate, rotate and reflect_vert, each within 0.5+1e-5 of a double-precision reference with exact octant reduction; nested general angles: parent at every integer degree x reflect over a child in each of the 8 right-angle orientations and one general angle x 3 non-zero child offsets, as cascaded Transforms and through Layout::flatten, every point within half a unit of the exact real composition (rounded once); sibling instances: (no parent / a parent in each of the 8 orientations) over a cell holding three instances of one leaf - two in every pair of the 8 orientations x 2 offsets and a plain one, listed last / first / in the middle, the three named differently / all with an empty name / all with the same name - and an own rectangle, every flattened shape compared with the exact image under the placements on its own path only (multiset); angles next to a right angle: 90q + d for d in +-{{0.001, 0.004, 0.01, 0.05, 0.1, 0.25, 0.5, 0.75, 0.81, 1.5}} degrees and the fractional general angles 90q +- 22.5, +- 33.3, 44.999, 45.001, 67.5, -67.25 x reflect on points with coordinates up to 1e6, as from_instance, as a cascade over a plain child at (100000, 0) and through Layout::flatten, within half a unit. A state is one placement / chain word; non-trivial = not the identity orientation."
             ),
             assumptions: vec!["general angles: the half unit is the statement's tolerance; 1e-5 covers double-precision evaluation".into()],
             excluded: vec!["non-integer angles and magnification".into()],
